@@ -29,9 +29,6 @@ package db
 //@ ufun ecsof(int) int
 //@ ufun edns0of(int) int
 
-//@ func Reader.Close
-//@ trusted
-
 //@ func FindSOA
 //@ trusted
 //@ requires a != nil && len(zoneCut) >= 1
@@ -51,3 +48,123 @@ package db
 //@ requires a != nil
 //@ modifies a
 //@ ensures a.MsgHdr == old(a.MsgHdr) && a.Question == old(a.Question) && a.Answer == old(a.Answer) && a.Ns == old(a.Ns) && a.Compress == old(a.Compress)
+
+// ---- C06: backend life cycle ---------------------------------------------------------------------------
+// closes[b] counts Close() calls on backend b. No DBI method may be called on a closed backend, and Close
+// itself requires closes == 0 (never twice). A *DB owns its backend: the backend is closed exactly when the
+// DB is destroyable and its last reader is gone.
+//@ ghostvar closes seq
+//@ ufun dbof(int) int
+//@ spec dbInv(d *DB) bool = closes[d.dbi] == ite(d.destroyable && d.refCount == 0, 1, 0) && d.dbi != nil
+
+//@ func DBI.Close
+//@ trusted
+//@ requires closes[recv] == 0
+//@ updates closes
+//@ ensures closes == upd(old(closes), recv, 1)
+
+//@ func DBI.NewContext
+//@ trusted
+//@ requires closes[recv] == 0
+//@ func DBI.FreeContext
+//@ trusted
+//@ requires closes[recv] == 0
+//@ func DBI.Find
+//@ trusted
+//@ requires closes[recv] == 0
+//@ func DBI.ForEach
+//@ trusted
+//@ requires closes[recv] == 0
+//@ func DBI.FindMap
+//@ trusted
+//@ requires closes[recv] == 0
+//@ func DBI.GetLocationByMap
+//@ trusted
+//@ requires closes[recv] == 0
+//@ func DBI.ClosestKeyFinder
+//@ trusted
+//@ requires closes[recv] == 0
+//@ func DBI.GetStats
+//@ trusted
+//@ requires closes[recv] == 0
+//@ func DBI.Reload
+//@ trusted
+//@ requires closes[recv] == 0
+//@ ensures err != nil ==> result0 == nil
+//@ ensures err == nil ==> result0 != nil && closes[result0] == 0 && (result0 == recv || fresh(result0))
+
+//@ func NewReader
+//@ requires db != nil ==> dbInv(db) && closes[db.dbi] == 0
+//@ modifies db
+//@ ensures[nil] db == nil ==> err != nil
+//@ ensures[ref] db != nil ==> err == nil && result0 != nil && db.refCount == (old(db.refCount) + 1) % 18446744073709551616 && db.dbi == old(db.dbi) && db.destroyable == old(db.destroyable)
+//@ ensures[inv] db != nil && old(db.refCount) < 18446744073709551615 ==> dbInv(db)
+//@ ensures[closes] closes == old(closes)
+//@ ensures[pins] db != nil ==> rdb(result0) == db
+
+//@ func DataReader.Close
+//@ updates closes
+//@ requires r.db != nil && dbInv(r.db) && r.db.refCount >= 1 && closes[r.db.dbi] == 0
+//@ modifies r.db
+//@ ensures[ref] r.db.refCount == old(r.db.refCount) - 1 && r.db.dbi == old(r.db.dbi) && r.db.destroyable == old(r.db.destroyable)
+//@ ensures[inv] dbInv(r.db)
+//@ ensures[once] closes == old(closes) || (r.db.destroyable && r.db.refCount == 0 && closes == upd(old(closes), r.db.dbi, 1))
+
+//@ func DB.Destroy
+//@ updates closes
+//@ requires dbInv(f) && !f.destroyable
+//@ modifies f
+//@ ensures[inv] f.destroyable && dbInv(f) && f.refCount == old(f.refCount) && f.dbi == old(f.dbi)
+//@ ensures[once] closes == old(closes) || (f.refCount == 0 && closes == upd(old(closes), f.dbi, 1))
+
+// The *DB a reader pins (both reader implementations embed DataReader).
+//@ spec rdb(r Reader) *DB = ite(dyntype(r) == ptrtag("db.sortedDataReader"), asptr(r, "db.sortedDataReader").DataReader.db, asptr(r, "db.DataReader").db)
+
+//@ func Reader.ForEach
+//@ trusted
+//@ requires rdb(recv) != nil && closes[rdb(recv).dbi] == 0
+
+// Reader.Close at the interface: what DataReader.Close is proved to do, stated over rdb(recv).
+//@ func Reader.Close
+//@ trusted
+//@ updates closes
+//@ requires[nn] rdb(recv) != nil
+//@ requires[inv] dbInv(rdb(recv))
+//@ requires[held] rdb(recv).refCount >= 1
+//@ requires[open] closes[rdb(recv).dbi] == 0
+//@ modifies rdb(recv)
+//@ ensures rdb(recv).refCount == old(rdb(recv).refCount) - 1 && rdb(recv).dbi == old(rdb(recv).dbi) && rdb(recv).destroyable == old(rdb(recv).destroyable) && dbInv(rdb(recv))
+//@ ensures closes == old(closes) || (rdb(recv).destroyable && rdb(recv).refCount == 0 && closes == upd(old(closes), rdb(recv).dbi, 1))
+
+//@ func DB.ValidateDbKey
+//@ updates closes
+//@ requires dbInv(f) && closes[f.dbi] == 0 && !f.destroyable && f.refCount < 1000000000
+//@ modifies f
+//@ ensures[inv] dbInv(f) && f.refCount == old(f.refCount) && f.dbi == old(f.dbi) && !f.destroyable
+//@ ensures[closes] closes == old(closes)
+
+//@ after NewReader#0 assert[a1] err == nil
+//@ after NewReader#0 assert[a1b] f.refCount == old(f.refCount) + 1
+//@ after NewReader#0 assert[a1c] rdb(reader) == f
+//@ after Reader.ForEach#0 assert[a2] f.refCount == old(f.refCount) + 1 && rdb(reader) == f
+
+//@ func DB.validateDbKeyOrDestroy
+//@ updates closes
+//@ requires dbInv(f) && closes[f.dbi] == 0 && !f.destroyable && f.refCount < 1000000000
+//@ modifies f
+//@ ensures[ok] err == nil ==> dbInv(f) && !f.destroyable && closes == old(closes) && f.refCount == old(f.refCount) && f.dbi == old(f.dbi)
+//@ ensures[fail] err != nil ==> f.destroyable && dbInv(f) && f.dbi == old(f.dbi) && (closes == old(closes) || (f.refCount == 0 && closes == upd(old(closes), f.dbi, 1)))
+
+// DB.Reload, the arm taken when the reload goroutine finished in time (C05, C06). On entry the candidate
+// backend (if any) is open and is either the served backend itself (catch-up) or a different one.
+//@ func DB.Reload@done
+//@ region select#0/case#1+
+//@ updates closes
+//@ requires dbInv(f) && !f.destroyable && closes[f.dbi] == 0 && f.refCount < 1000000000
+//@ requires err != nil ==> newDBI == nil
+//@ requires err == nil ==> newDBI != nil && closes[newDBI] == 0
+//@ modifies f
+//@ ensures[fail] result1 != nil ==> result0 == f && dbInv(f) && !f.destroyable && closes[f.dbi] == 0
+//@ ensures[rejected] result1 != nil && old(err) == nil && old(newDBI) != f.dbi ==> closes[old(newDBI)] == 1
+//@ ensures[same] result1 == nil && old(newDBI) == f.dbi ==> result0 == f && dbInv(f) && !f.destroyable && closes == old(closes)
+//@ ensures[new] result1 == nil && old(newDBI) != f.dbi ==> result0 != nil && result0 != f && result0.dbi == old(newDBI) && dbInv(result0) && !result0.destroyable && closes[old(newDBI)] == 0 && f.destroyable && dbInv(f)
